@@ -1,4 +1,7 @@
 import Cutplace.Model.Range
+import Cutplace.Model.Decimal
+import Cutplace.Model.DateTime
+import Cutplace.Model.Regex
 /-
 Model of `cutplace/fields.py`: the guard pipeline of `AbstractFieldFormat.validated` and the
 declaration logic + `validated_value` of the built-in field types.
@@ -24,7 +27,11 @@ inductive FieldKind
   | constant (c : Str)
   /-- harness-defined plugin type: rejects every value containing `bad` -/
   | scripted (bad : Char)
-  deriving Repr, DecidableEq, Inhabited
+  | decimal (decimalSep : Char) (thousandsSep : Option Char) (valid : DecimalRange)
+  | datetime (fmt : List FmtTok) (hasTime : Bool) (excel : Bool)
+  | pattern (rx : Rx)
+  | regex (rx : Rx)
+  deriving Repr, Inhabited
 
 structure Field where
   allowEmpty : Bool
@@ -33,7 +40,7 @@ structure Field where
   /-- `data_format.allowed_characters` -/
   allowed : Option Range
   kind : FieldKind
-  deriving Repr, DecidableEq, Inhabited
+  deriving Repr, Inhabited
 
 /-- `validated_value` of the built-in types: `none` = `FieldValueError`.  `unsupported` when the
 cell leaves the modelled fragment of `int()`. -/
@@ -48,9 +55,37 @@ def FieldKind.validatedValue (k : FieldKind) (v : Str) : Out (Option Value) :=
   | .choice cs => .ok (if cs.contains v then some (.str v) else none)
   | .constant c => .ok (if v == c then some (.str v) else none)
   | .scripted bad => .ok (if v.contains bad then none else some (.str v))
+  | .decimal ds ts valid =>
+    match translateDecimal ds ts v false with
+    | none => .ok none
+    | some t =>
+      match pyDecimal t with
+      | .unsupported => .error .unsupported
+      | .invalid => .ok none
+      | .ok d =>
+        match valid.validate d with
+        | none => .error .invalidOperation          -- NaN compared with a limit
+        | some true => .ok (some (.other d.tupleText))
+        | some false => .ok none
+  | .datetime fmt hasTime excel =>
+    if !isAscii v then .error .unsupported
+    else
+      let noTime := " 00:00:00".toList
+      let v' := if !hasTime && excel && v.length ≥ noTime.length && v.drop (v.length - noTime.length) == noTime
+        then v.take (v.length - noTime.length) else v
+      if hasDuplicateDirective fmt then .error .reError
+      else match strptime fmt v' with
+        | none => .ok none
+        | some (y, mo, d, h, mi, sec) =>
+          .ok (some (.other (natRepr y ++ "-".toList ++ natRepr mo ++ "-".toList ++ natRepr d ++ " ".toList ++
+            natRepr h ++ ":".toList ++ natRepr mi ++ ":".toList ++ natRepr sec)))
+  | .pattern rx => if !isAscii v then .error .unsupported else .ok (if rx.matchPrefix v then some (.str v) else none)
+  | .regex rx => if !isAscii v then .error .unsupported else .ok (if rx.matchPrefix v then some (.str v) else none)
 
 def FieldKind.emptyValue : FieldKind → Value
   | .integer _ => .none
+  | .decimal _ _ _ => .none
+  | .datetime _ _ _ => .none
   | _ => .str []
 
 /-- `validate_characters`: index of the first character outside the allowed range -/
@@ -138,13 +173,24 @@ def declareInteger (fixed : Bool) (lengthText rule : Str) (length : Range) : Out
   | none, some rr => pure rr
   | none, none => Range.parse "-2147483648...2147483647".toList
 
-inductive TypeName | text | integer | choice | constant | scripted (bad : Char)
+inductive TypeName | text | integer | choice | constant | scripted (bad : Char) | decimal | datetime | pattern | regex
   deriving Repr, DecidableEq, Inhabited
 
+/-- the data-format attributes a field declaration reads -/
+structure FormatInfo where
+  format : Format
+  allowed : Option Range := none
+  decimalSep : Char := '.'
+  thousandsSep : Option Char := none
+  deriving Repr, Inhabited
+
 /-- `<Type>FieldFormat(name, allowEmpty, lengthText, rule, data_format)` -/
-def declareField (ty : TypeName) (fmt : Format) (allowed : Option Range) (allowEmpty : Bool)
+def declareFieldIn (ty : TypeName) (info : FormatInfo) (allowEmpty : Bool)
     (lengthText rule : Str) : Out Field := do
-  let length ← Range.parse lengthText
+  let fmt := info.format
+  let allowed := info.allowed
+  -- Decimal passes "" to the base class and installs a DecimalRange as length afterwards
+  let length ← if ty == .decimal then Range.parse [] else Range.parse lengthText
   let fixed := fmt == .fixed
   let mk (k : FieldKind) : Field := ⟨allowEmpty, length, fixed, allowed, k⟩
   match ty with
@@ -171,6 +217,39 @@ def declareField (ty : TypeName) (fmt : Format) (allowed : Option Range) (allowE
     else if !allowEmpty && hasEmptyRule then .error .iface
     else if !length.validate c.length then .error .iface
     else pure (mk (.constant c))
+  | .decimal => do
+    -- `data_format.decimal_separator` does not exist for Excel / ODS formats
+    if fmt == .excel || fmt == .ods then .error .attribute
+    let valid ← DecimalRange.parse rule (some defaultDecimalRangeText)
+    let _ ← DecimalRange.parse lengthText
+    -- the length is kept as an integer range when it is spelled with integers (C03_decimal_length)
+    let len ← match Range.parse lengthText with
+      | .ok r => pure r
+      | .error _ => .error .unsupported
+    pure ⟨allowEmpty, len, fixed, allowed, .decimal info.decimalSep info.thousandsSep valid⟩
+  | .datetime => do
+    if !isAscii rule then .error .unsupported
+    let sf := translateLayout rule
+    match parseFormat sf with
+    | none => .error .unsupported
+    | some none => pure (mk (.datetime [.lit '%'] false (fmt == .excel)))   -- stray `%`: every value fails (`ValueError`)
+    | some (some toks) =>
+      -- `any(directive in self.strptime_format ...)`: a substring test on the translated text
+      let hasSub (pat : Str) : Bool := (List.range (sf.length + 1)).any (fun i => startsWith (sf.drop i) pat)
+      let hasTime := hasSub "%H".toList || hasSub "%M".toList || hasSub "%S".toList
+      pure (mk (.datetime toks hasTime (fmt == .excel)))
+  | .pattern =>
+    match globToRx (rule.length + 1) rule with
+    | some rx => if isAscii rule then pure (mk (.pattern rx)) else .error .unsupported
+    | none => .error .unsupported
+  | .regex =>
+    match parseRegex rule with
+    | some rx => pure (mk (.regex rx))
+    | none => .error .unsupported
+
+def declareField (ty : TypeName) (fmt : Format) (allowed : Option Range) (allowEmpty : Bool)
+    (lengthText rule : Str) : Out Field :=
+  declareFieldIn ty { format := fmt, allowed := allowed } allowEmpty lengthText rule
 
 end Cutplace
 
